@@ -82,7 +82,7 @@ def lookupEntry (entries : List (String × String)) (st : Nat) : Option (String 
 
 def respOKOf (entries : List (String × String)) (includeStatus excludeBody : Bool) (st : Nat) (h : Hdr) (b : Bytes) : Bool :=
   if st == 304 || st == 308 || st == 307 || st == 301 then true else
-  if entries.isEmpty then true else
+  if entries.isEmpty && !includeStatus then true else   -- `responses.Len() == 0 && !options.IncludeResponseStatus`
   match lookupEntry entries st with
   | none => !includeStatus
   | some (_, kind) =>
@@ -259,7 +259,7 @@ def renderMw (j : Json) (p : MwIn) (o : Outcome) : Json :=
   let env := p.env
   let s := spec cfg env ops
   let applicable := validCodesB ops
-  let excl : List String := if informational env.server ops then ["Informational1xx"] else []
+  let excl : List String := []
   let rawOps := getArr j "ops"
   let vopts := getArr j "vopts"
   let wrapperTy := if strict then "strictResponseWrapper" else "warnResponseWrapper"
@@ -283,7 +283,7 @@ def renderMw (j : Json) (p : MwIn) (o : Outcome) : Json :=
     (if getStr j "transport" == "server" then ["tr.server"] else []) ++
     (if getBool j "head" then ["req.head"] else []) ++
     (["rcfl", "ws", "copy", "probe"].filter (hasOpKind rawOps)).map ("ops.iface." ++ ·) ++
-    (if !excl.isEmpty && env.routeFound && env.reqOK then ["mw.info_" ++ (if strict then "strict" else "warn")] else []) ++
+    (if informational env.server ops && env.routeFound && env.reqOK then ["mw.info_" ++ (if strict then "strict" else "warn")] else []) ++
     (vopts.map (fun o => "opt." ++ getStr o "o" ++ (if getStr o "o" == "onerr" then "." ++ getStr o "kind" else ""))).eraseDups ++
     (if !vopts.isEmpty then
        (["strict", "onerr", "onlog", "valopts"].filter (fun k => !hasKind vopts k)).map ("opt.default." ++ ·) ++
